@@ -19,6 +19,7 @@ import os
 import random
 import shutil
 import struct
+import subprocess
 import time
 
 import vlib
@@ -360,9 +361,9 @@ def enumerate_faults(files, tier, seed):
             csg_picks.setdefault(enc, fi)      # one file per block encoding (0 zstd, 1 dict, 2 timestamps)
     for enc, fi in csg_picks.items():
         f = files[fi]
-        if quick and enc != 2:
+        if quick:
             continue
-        offs = [0] if quick else [0, 1, 2, 3]
+        offs = [0, 1, 2, 3]
         if not quick:
             offs += [4, 8, 12, 13]
             second = [r for r in f["regions"] if r["chunk"] == "cN" and r["region"] == "magic"]
@@ -376,10 +377,25 @@ def enumerate_faults(files, tier, seed):
                 seen_kind0.add(f["kind"])
                 full256.add((fi, 0))
 
+    # replay candidates of the model: ChecksummedNeverAltered fails in the as-coded model exactly for (csg, c0, magic, flip) - the
+    # legacy read hands the raw file to the block decoder, which dispatches on its first byte.  Concretisation: the first byte of
+    # every csg file := each block-encoding tag (0 zstd, 1 dictionary, 2 timestamps); repeated, because what an unverified decode
+    # returns can depend on pooled buffers
+    # The same values are tried on the first magic byte of every LATER chunk (the model says Error there, because the file's
+    # first word still carries the magic).
+    for fi, f in enumerate(files):
+        if f["kind"] == "csg":
+            for r in f["regions"]:
+                if r["region"] != "magic":
+                    continue
+                for tag in (0, 1, 2):
+                    for rep in range((3 if quick else 6) if r["chunk"] == "c0" else (2 if quick else 3)):
+                        cases.append({"fi": fi, "fault": "flip", "off": r["lo"], "val": tag, "cls": cls_of(f, r, "flip", r["lo"]),
+                                      "candidate_replay": rep})
     for fi, f in enumerate(files):
         shared = f["kind"] in ("segmeta", "mmeta")
         lo, hi = (f["line"] if shared else (0, f["size"]))
-        starts = set(r["lo"] for r in f["regions"])
+        starts = set(r["lo"] for r in f["regions"]) | set(r["hi"] - 1 for r in f["regions"])     # first and last byte of every region
         hdr = set()
         if f["kind"] == "csg":
             for r in f["regions"]:
@@ -387,14 +403,14 @@ def enumerate_faults(files, tier, seed):
                     hdr.update(range(r["lo"], r["hi"]))
         # truncations: new length L (the first removed byte is L)
         if not shared:
-            k = 9 if quick else 1
+            k = (3 if f["kind"] == "csg" else 11) if quick else 1     # checksummed files are sampled densely
             ph = rnd.randrange(k)
             for L in range(0, f["size"]):
                 if L in starts or L % k == ph:
                     r = region_at(f, L)
                     cases.append({"fi": fi, "fault": "trunc", "off": L, "val": None, "cls": cls_of(f, r, "trunc", L)})
         # single-byte modifications
-        k = 7 if quick else 1
+        k = 9 if quick else 1
         ph = rnd.randrange(k)
         for o in range(lo, hi):
             old = f["bytes"][o]
@@ -419,7 +435,9 @@ def enumerate_faults(files, tier, seed):
 # --------------------------------------------------------------------------- running one fault
 
 def copy_with_fault(master, dst, f, case):
-    shutil.copytree(os.path.join(master, "data"), os.path.join(dst, "data"))
+    # cp / rm as subprocesses: the sweep runs in python threads and shutil would serialise on the GIL
+    if subprocess.run(["cp", "-a", os.path.join(master, "data"), os.path.join(dst, "data")]).returncode != 0:
+        raise vlib.Infra("cp of the master data set failed")
     if case is None:
         return
     p = os.path.join(dst, f["path"])
@@ -454,7 +472,7 @@ def run_family(binary, d, fam, ceiling=True, tmo=40):
             if not o.get("ok"):
                 err = o.get("err") or ""
                 if "PANIC" in err:
-                    out["status"], out["detail"] = "crash", "%s: panic in the request goroutine: %s" % (name, err[:700])
+                    out["status"], out["detail"] = "crash", "%s: panic in the request goroutine: %s" % (name, err[:5000])
                     return out
                 out["answers"].append({"qerr": err[:300]})
                 continue
@@ -470,11 +488,12 @@ def run_family(binary, d, fam, ceiling=True, tmo=40):
     except vlib.DriverDead as e:
         tail = ""
         try:
-            tail = open(errp, "rb").read()[-1500:].decode("utf8", "replace")
+            tail = open(errp, "rb").read()[-60000:].decode("utf8", "replace")
+            tail = panic_part(tail)[:6000]
         except OSError:
             pass
         out["status"] = "hang" if e.kind == "hang" else "crash"
-        out["detail"] = "%s | stderr tail: %s" % (e, tail[:1200])
+        out["detail"] = "%s | stderr: %s" % (e, tail[:5000])
         if "out of memory" in tail or "cannot allocate memory" in tail:
             out["oom"] = True
         return out
@@ -614,18 +633,35 @@ class Oracle:
         if s == bs and not ans.get("errs"):
             return "Original", ""
         cls, det = ("Error", str(ans.get("errs"))[:200]) if ans.get("errs") else ("Omitted", "")
-        for gid, pts in bs.items():
-            want = [p[:2] for p in pts if p[0] >= T0S + 900]
-            got = [p[:2] for p in s.get(gid, []) if p[0] >= T0S + 900]
-            if want != got and not ans.get("errs"):
-                return "OtherChanged", "series %s: datapoints of the undamaged metrics segment changed: want %d got %d" % (gid, len(want), len(got))
+        # a point (series, ts, bits) is genuine iff it was ingested; altered timestamps of the damaged segment can land anywhere,
+        # so "other segment affected" is claimed only when an undamaged-segment point is missing/different in a series that
+        # shows no invented point at all
+        others_bad, invented = None, None
         for gid, pts in s.items():
             if gid not in bs:
-                return "Altered", "series %s was never ingested" % gid
+                invented = invented or "series %s was never ingested" % gid
+                continue
             bmap = {p[0]: p[1] for p in bs[gid]}
             for p in pts:
-                if bmap.get(p[0]) != p[1]:
-                    return "Altered", "series %s ts=%s value bits %s, ingested %s" % (gid, p[0], p[1], bmap.get(p[0]))
+                if bmap.get(p[0]) != p[1] and p[0] < T0S + 900:
+                    invented = invented or "series %s ts=%s value bits %s, ingested %s" % (gid, p[0], p[1], bmap.get(p[0]))
+        if not ans.get("errs"):
+            for gid, pts in bs.items():
+                gmap = {p[0]: p[1] for p in s.get(gid, [])}
+                bmap = {p[0]: p[1] for p in pts}
+                extra = [t for t in gmap if t not in bmap]
+                for p in pts:
+                    if p[0] >= T0S + 900 and gmap.get(p[0]) != p[1]:
+                        if extra:
+                            invented = invented or "series %s ts=%s value bits %s, ingested %s (series also has invented points)" % (gid, p[0], gmap.get(p[0]), p[1])
+                        else:
+                            others_bad = others_bad or "series %s: datapoint ts=%s of the undamaged metrics segment: want %s got %s" % (gid, p[0], p[1], gmap.get(p[0]))
+                if extra:
+                    invented = invented or "series %s has datapoints at never-ingested timestamps %s" % (gid, sorted(extra)[:4])
+        if others_bad:
+            return "OtherChanged", others_bad
+        if invented:
+            return "Altered", invented
         return cls, det
 
     def judge(self, run):
@@ -658,16 +694,40 @@ def norm_answers(answers):
     return answers
 
 
+def panic_part(text):
+    i = max(text.rfind("panic: "), text.rfind("PANIC"), text.rfind("fatal error: "))
+    return text[i:] if i >= 0 else text
+
+
+def crash_frames(text, n=4):
+    """siglens frames of a Go panic / fatal error trace, innermost first, helper package pkg/utils skipped"""
+    import re
+    out = []
+    for m in re.finditer(r"github\.com/siglens/siglens/pkg/((?:[\w.-]+/)*)([\w-]+)\.((?:\([^)]*\)\.)?[\w]+)(?:\[\.\.\.\])?\(", panic_part(text)):
+        fr = "%s.%s" % (m.group(2), m.group(3).replace("(", "").replace(")", "").replace("*", ""))
+        if m.group(2) != "utils" and fr not in out:
+            out.append(fr)
+        if len(out) >= n:
+            break
+    return out
+
+
 def crash_site(text):
-    """first siglens frame of a Go panic / fatal error trace -> 'pkg.Func' (or a short tag)"""
+    """first siglens frame (outside pkg/utils) of the panicking goroutine -> 'pkg.Func' (or a short tag)"""
     import re
     if "out of memory" in text or "cannot allocate memory" in text:
         return "out-of-memory"
-    m = re.search(r"github\.com/siglens/siglens/pkg/((?:[\w.-]+/)*)([\w-]+)\.((?:\([^)]*\)\.)?[\w]+)", text)
-    if m:
-        return "%s.%s" % (m.group(2), m.group(3).replace("(", "").replace(")", "").replace("*", ""))
+    fr = crash_frames(text, 1)
+    if fr:
+        return fr[0]
     m = re.search(r"(PANIC[^:]*: [^\n]{0,60}|panic: [^\n]{0,80}|fatal error: [^\n]{0,80})", text)
     return m.group(1).replace(" ", "_") if m else "exit"
+
+
+def crash_summary(text):
+    import re
+    m = re.search(r"(PANIC[^:]*: [^\n]{0,160}|panic: [^\n]{0,160}|fatal error: [^\n]{0,160})", panic_part(text))
+    return "%s; frames: %s" % (m.group(1) if m else "process exit", " <- ".join(crash_frames(text, 5)))
 
 
 def norm_err(line):
@@ -768,13 +828,17 @@ def run(chk):
                 newerr = [l for l in run["errlog"] if norm_err(l) not in base_err]
                 return {"cls": cls, "det": det, "per": per, "indicated": bool(newerr) or "Error" in per, "oom": run.get("oom", False)}
             finally:
-                vlib.rmtree(d)
+                subprocess.run(["rm", "-rf", d])
 
         results = vlib.pmap(one, range(len(cases)), workers=WORKERS)
         vlib.log("[C18] sweep took %.0fs" % (time.time() - t_start))
 
         # confirm crashes / hangs / init errors serially, without the address-space ceiling, longer watchdog
-        confirm = [i for i, r in enumerate(results) if r["cls"] in ("crash", "hang", "initerr")]
+        # (a Go panic with a stack trace is not load dependent: it is taken as it is)
+        for r in results:
+            if r["cls"] == "crash" and ("panic: " in r["det"] or "PANIC" in r["det"]):
+                r["confirmed"] = True
+        confirm = [i for i, r in enumerate(results) if r["cls"] in ("crash", "hang", "initerr") and not r.get("confirmed")]
         seen_sig = {}
         for i in confirm:
             case, f = cases[i], files[cases[i]["fi"]]
@@ -796,6 +860,31 @@ def run(chk):
                     results[i]["recls"] = cls
             finally:
                 vlib.rmtree(d)
+
+        # answers about other segments: re-run (the effect can be intermittent); a verdict only if it shows again
+        oc = [i for i, r in enumerate(results) if r["cls"] == "OtherChanged"][:12]
+
+        def reconfirm(i):
+            case, f = cases[i], files[cases[i]["fi"]]
+            hits = 0
+            for j in range(12):
+                d = os.path.join(work, "o%d_%d" % (i, j))
+                os.makedirs(d)
+                try:
+                    copy_with_fault(master, d, f, case)
+                    rr = run_family(binary, d, fam, ceiling=False, tmo=120)
+                    norm_answers(rr["answers"])
+                    if rr["status"] == "ok" and orc.judge(rr)[0] == "OtherChanged":
+                        hits += 1
+                finally:
+                    subprocess.run(["rm", "-rf", d])
+            return hits
+        for i, hits in zip(oc, vlib.pmap(reconfirm, oc, workers=4)):
+            results[i]["confirmed"] = hits > 0
+            results[i]["det"] += " [reproduced in %d of 12 re-runs]" % hits
+        for i, r in enumerate(results):
+            if r["cls"] == "OtherChanged" and "confirmed" not in r:
+                r["confirmed"] = False
 
         if tree_hash(os.path.join(master, "data")) != h0:
             raise vlib.Infra("the master data set changed during the sweep")
@@ -821,14 +910,14 @@ def run(chk):
             label = cls
             if cls in ("Omitted",):
                 label = "Omitted+indication" if res["indicated"] else "Omitted-silently"
-            if cls in ("crash", "hang", "initerr") and res.get("confirmed") is False:
+            if cls in ("crash", "hang", "initerr", "OtherChanged") and res.get("confirmed") is False:
                 label = cls + "-unconfirmed" + ("-oom-under-ceiling" if res.get("oom") else "")
                 unconfirmed += 1
             t[label] = t.get(label, 0) + 1
             chk.count(ck, nontrivial=cls != "Original")
             rep = {"file": f["path"], "kind": kind, "region": "%s.%s" % (chunkc, region), "fault": case["fault"], "offset": case["off"],
                    "value": case["val"], "old": f["bytes"][case["off"]] if case["off"] < f["size"] else None,
-                   "seed": chk.seed, "class": cls, "detail": res["det"][:1500], "model_candidate": case["cls"] in candidates}
+                   "seed": chk.seed, "class": cls, "detail": res["det"][:3000], "model_candidate": case["cls"] in candidates}
             where = "%s offset %d of %s (%s region %s.%s)" % (
                 ("truncate to length" if case["fault"] == "trunc" else "byte 0x%02x ->0x%02x at" % (rep["old"] or 0, case["val"] or 0)),
                 case["off"], os.path.basename(f["path"]), kind, chunkc, region)
@@ -836,13 +925,13 @@ def run(chk):
                 flag("C18:%s:%s.%s:altered-values-served" % (kind, chunkc, region),
                      "altered values served from a checksummed column block after %s: %s%s" % (
                          where, res["det"][:600], " [model replay candidate: legacy un-checksummed path]" if rep["model_candidate"] else ""), rep)
-            elif cls == "OtherChanged":
+            elif cls == "OtherChanged" and res.get("confirmed"):
                 flag("C18:%s:%s.%s:other-segment-affected" % (kind, chunkc, region),
                      "damage in one segment changed answers about another after %s: %s" % (where, res["det"][:600]), rep)
             elif cls == "crash" and (res.get("confirmed") or res.get("confirmed") is None):
                 det = res.get("confirm_detail") or res["det"]
                 flag("C18:%s:process-crash:%s" % (kind, crash_site(det)),
-                     "server process died / panicked after %s: %s" % (where, det[:900]), rep)
+                     "server process died / panicked after %s: %s" % (where, crash_summary(det)), rep)
             elif cls == "hang" and res.get("confirmed"):
                 flag("C18:%s:%s.%s:hang" % (kind, chunkc, region),
                      "query hangs (confirmed on a serial re-run, 120 s) after %s: %s" % (where, res["det"][:600]), rep)
@@ -890,11 +979,12 @@ def run(chk):
                           "by a fresh engine process; distinct_nontrivial = model fault classes (kind/region/fault) in which at least one "
                           "injected fault changed an answer or raised an error (the damaged bytes were consumed by the query family)",
                      exhaustive=not quick,
-                     extra={"tier_plan": ("quick: all region starts + every 9th truncation length; chunk-header bytes and region starts + every 7th "
-                                          "offset with one of 3 values; all 256 values on the first magic byte of the timestamp csg"
+                     extra={"tier_plan": ("quick: first/last byte of every region + every 11th (csg: every 3rd) truncation length; chunk-header bytes, region boundaries + every 9th "
+                                          "offset with one of 3 values; model replay candidates (first byte of every csg := each encoding tag, 3 repeats)"
                                           if quick else
                                           "thorough: every truncation length; 3 values at every offset; 256 values at chunk-0 magic/crc/len/enc "
-                                          "bytes and first later-chunk magic byte of one csg per encoding and at byte 0 of every other file kind")})
+                                          "bytes and first later-chunk magic byte of one csg per encoding and at byte 0 of every other file kind; model "
+                                          "replay candidates with 6 repeats")})
     finally:
         vlib.rmtree(master)
         vlib.rmtree(work)
